@@ -23,7 +23,7 @@ EXPLANATION = (
     "parameterised types, anything depending on what pandas/numpy/pyarrow objects print."
 )
 LEVEL_RULE = "one obligation per registry row / key / family member / duplicate pair found in the current tree"
-FLOORS = {"R1": 150, "R2": 60, "R3": 5, "R4": 100, "R5": 6, "R6": 20}
+FLOORS = {"R1": 150, "R2": 60, "R3": 5, "R4": 100, "R5": 6, "R6": 20, "R7": 20, "R8": 3}
 
 ENGINE_FILES = [
     "pandera/engines/numpy_engine.py", "pandera/engines/pandas_engine.py", "pandera/engines/pyarrow_engine.py",
@@ -394,6 +394,154 @@ def r6_duplicates(ctx, rows):
                f"{a['module'].path}:{a['cls'].lineno}")
 
 
+def _type_setters(fn_node):
+    """Expressions stored into the `type` field by an initialiser: object.__setattr__(self, "type", X) / self.type = X."""
+    out = []
+    for n in walk_no_nested(fn_node):
+        if isinstance(n, ast.Call) and txt(n.func) == "object.__setattr__" and len(n.args) == 3 \
+                and isinstance(n.args[1], ast.Constant) and n.args[1].value == "type":
+            out.append(n.args[2])
+        elif isinstance(n, ast.Assign) and any(txt(t) == "self.type" for t in n.targets):
+            out.append(n.value)
+    return out
+
+
+def _init_fields(cls_node):
+    """(ordered init field names, initialiser function) of a dtype class: explicit __init__ parameters, else the
+    dataclass fields of the class body that take part in __init__."""
+    init = post = None
+    for s in cls_node.body:
+        if isinstance(s, ast.FunctionDef) and s.name == "__init__":
+            init = s
+        if isinstance(s, ast.FunctionDef) and s.name == "__post_init__":
+            post = s
+    if init is not None:
+        a = init.args
+        return [x.arg for x in a.posonlyargs + a.args][1:] + [x.arg for x in a.kwonlyargs], init
+    fields = []
+    for s in cls_node.body:
+        if isinstance(s, ast.AnnAssign) and isinstance(s.target, ast.Name):
+            v = s.value
+            if isinstance(v, ast.Call) and callee_last(v) == "field" and isinstance(kw(v, "init"), ast.Constant) and kw(v, "init").value is False:
+                continue
+            if "ClassVar" in txt(s.annotation):
+                continue
+            fields.append(s.target.id)
+    return fields, post
+
+
+def _field_slots(expr, fields, slots):
+    """Attach every occurrence of an init field inside `expr` to the argument slot of the innermost call that receives it."""
+    def visit(n, slot):
+        if isinstance(n, ast.Call):
+            callee = txt(n.func)
+            visit(n.func, slot)
+            for i, a in enumerate(n.args):
+                visit(a, f"{callee}#{i}")
+            for k in n.keywords:
+                visit(k.value, f"{callee}.{k.arg}" if k.arg else slot)
+            return
+        f = None
+        if isinstance(n, ast.Attribute) and isinstance(n.value, ast.Name) and n.value.id == "self" and n.attr in fields:
+            f = n.attr
+        elif isinstance(n, ast.Name) and n.id in fields:
+            f = n.id
+        if f is not None:
+            slots.setdefault(slot or f"bare:{f}", set()).add(f)
+            return
+        for ch in ast.iter_child_nodes(n):
+            visit(ch, slot)
+    visit(expr, None)
+
+
+def r7_parametrized(ctx):
+    """from_parametrized_dtype must carry every parameter that determines the native type over from the source dtype."""
+    from ..util import Expander, names_in
+    n = 0
+    for path in ENGINE_FILES:
+        m = ctx.ix.by_path.get(path)
+        for c in ast.walk(m.tree):
+            if not isinstance(c, ast.ClassDef):
+                continue
+            fpd = next((s for s in c.body if isinstance(s, ast.FunctionDef) and s.name == "from_parametrized_dtype"), None)
+            if fpd is None or len(fpd.args.args) < 2:
+                continue
+            src = fpd.args.args[1].arg
+            fields, init = _init_fields(c)
+            if init is None or not fields:
+                continue
+            ex = Expander(init)
+            # slot of the native constructor -> init fields that may feed it (alternative spellings share a slot)
+            slots = {}
+            for x in _type_setters(init):
+                for xx in ex.closure(x):
+                    _field_slots(xx, fields, slots)
+            for name, vals in ex.flows.items():
+                for tgt in walk_no_nested(init):
+                    if isinstance(tgt, ast.Assign) and isinstance(tgt.targets[0], ast.Subscript) and txt(tgt.targets[0].value) == name \
+                            and isinstance(tgt.targets[0].slice, ast.Constant):
+                        fs = set()
+                        for xx in ex.closure(tgt.value):
+                            for a in ast.walk(xx):
+                                if isinstance(a, ast.Name) and a.id in fields:
+                                    fs.add(a.id)
+                                if isinstance(a, ast.Attribute) and txt(a.value) == "self" and a.attr in fields:
+                                    fs.add(a.attr)
+                        if fs:
+                            key = f"{name}[{tgt.targets[0].slice.value!r}]"
+                            for k in list(slots):
+                                if slots[k] & fs and k.startswith("bare:"):
+                                    del slots[k]
+                            slots.setdefault(key, set()).update(fs)
+            determining = set().union(*slots.values()) if slots else set()
+            fx = Expander(fpd)
+            calls = [k for k in ast.walk(fpd) if isinstance(k, ast.Call) and isinstance(k.func, ast.Name) and k.func.id == fpd.args.args[0].arg]
+            if not calls:
+                continue
+            passed = {}
+            for k in calls:
+                for i, a in enumerate(k.args):
+                    if i < len(fields) and not isinstance(a, ast.Starred):
+                        passed.setdefault(fields[i], []).append(a)
+                for kk in k.keywords:
+                    if kk.arg:
+                        passed.setdefault(kk.arg, []).append(kk.value)
+            qual = f"{path}::{c.name}.from_parametrized_dtype"
+            for slot, fs in sorted(slots.items()):
+                n += 1
+                given = [t for t in sorted(fs) if passed.get(t)]
+                from_src = bool(given) and all(any(src in names_in(d) for d in fx.closure(v)) for t in given for v in passed[t])
+                names = "/".join(sorted(fs))
+                ctx.ob("R7", qual, f"{c.name}: parameter `{names}` of the native type is carried over from `{src}`", bool(given) and from_src,
+                       f"{names}=<derived from {src}>" if given and from_src else
+                       (f"`{names}` determines the native type built in {init.name} but from_parametrized_dtype does not pass it: "
+                        f"every {src} resolves to the default `{names}`, so native dtypes differing in `{names}` resolve to the same pandera type and "
+                        f"E.dtype(str(t)) != t" if not given else f"`{given[0]}` is passed a value that does not come from `{src}`: {txt(passed[given[0]][0])}"),
+                       f"{path}:{fpd.lineno}")
+    ctx.stats["parametrized_parameters"] = n
+
+
+def r8_pure_resolution(ctx):
+    """Engine.dtype is a function of its argument: it writes neither the registries nor any other shared state
+    (a memo keyed by native dtype objects is unsound because their equality is coarser than pandera's)."""
+    from ..effprops import engine
+    from ..effects import show_effect
+    eng = engine(ctx.ix)
+    n = 0
+    for q, f in sorted(ctx.ix.funcs.items()):
+        if not (q.startswith("pandera/engines/") and q.endswith("::Engine.dtype")) or "pyspark" in q:
+            continue
+        n += 1
+        ctx.touched(f)
+        bad = [e for e in eng.summary(f).effects if e.kind not in ("init",)]
+        ctx.ob("R8", f, f"{f.module.path.split('/')[-1]} Engine.dtype resolves without writing shared state", not bad,
+               "no write effect reachable from the resolver" if not bad else
+               f"resolution writes shared state: {show_effect(bad[0])}; the result of E.dtype(k) then depends on which keys were resolved "
+               "before (native dtypes that compare equal, e.g. unordered categoricals with permuted categories, alias each other)")
+    if n < 3:
+        raise AnalysisError("Engine.dtype resolvers not found")
+
+
 def _norm_stmt(m, s):
     s2 = ast.parse(ast.unparse(s)).body[0]
     for n in ast.walk(s2):
@@ -416,6 +564,8 @@ def run(ctx):
     r4_immutable(ctx, rows)
     r5_generated(ctx)
     r6_duplicates(ctx, rows)
+    r7_parametrized(ctx)
+    r8_pure_resolution(ctx)
     ctx.assume("equivalence keys are compared by normalised source text with import aliases expanded; keys that are "
                "equal only at run time (e.g. two spellings of one numpy dtype object) are not detected")
     ctx.assume("generated rows (_build_number_equivalents, _register_numpy_numbers, runtime pyarrow/pyspark objects) "
